@@ -123,12 +123,25 @@ func (w *JWorld) GenJText(c *simrt.Chooser, doc *JDoc, v int, includes []string)
 		lines = append(lines, GenTxn(c, c.Choose("day", 300), w.Pools)...)
 		lines = append(lines, line(""))
 	}
+	// a transaction being typed: header of the stamp payee followed by an empty
+	// line, which is where inline completion offers the payee's posting template
+	lines = append(lines, line("2024-03-01 "+stampPayee, Occ{Kind: "payee", Name: stampPayee, Start: 11, End: 11 + len(stampPayee)}), line(""))
 	var b strings.Builder
 	for _, l := range lines {
 		b.WriteString(l.Text)
 		b.WriteByte('\n')
 	}
 	return b.String(), lines
+}
+
+// GhostLine returns the empty line after the "transaction being typed" header.
+func (d *JDoc) GhostLine() int {
+	for i := len(d.Lines) - 1; i > 0; i-- {
+		if d.Lines[i].Text == "" && strings.HasPrefix(d.Lines[i-1].Text, "2024-03-01 stamp") {
+			return i
+		}
+	}
+	return 0
 }
 
 // NewJWorld creates main.journal (includes a.journal), a.journal, b.journal
